@@ -79,6 +79,61 @@ CHECKS = {
              "NumLines/LineLen, the harness. Bounded by the corpus and the seeded generators.",
         technique="TLA+ reference reader model-checked with TLC over all prefixes of a token-kind corpus; prefixes replayed into the parser; error events validated by TLC",
     ),
+    "C03": dict(
+        category="model_checking",
+        text="The parser session machine (spec/Session.tla: cursor, nesting budget, native recursion depth, one action per public "
+             "call; every nesting construct - parentheses, brackets, vectors, the four quote shorthands, dotted tails - charges the "
+             "budget) is model-checked for all token sequences up to a bounded length: recursion depth <= Limit, budget restored "
+             "after every call, on every error path; the as-found deviations (quotes not charged, budget not refunded) are rejected "
+             "by TLC. Every token sequence is rendered and run as real parser sessions with the budget set to the model's Limit, "
+             "and each logged call (outcome, cursor, budget, recursion high-water mark) is validated by TLC against the machine. "
+             "Pathological shapes (10^6 openers of each kind and mixtures) run in child processes; all short byte strings and "
+             "seeded mutated inputs run under catch_unwind with the same per-call checks.",
+        design_ref="DESIGN.md section 6 (C03), section 3.7",
+        note="Trusted: TLC, the add-only hooks (verif_offset, verif_depth_left, verif_set_depth_left, recursion probe), the harness. "
+             "Stack exhaustion is observed as child-process death. Totality on arbitrary bytes is exhaustive to length 2 (quick) / "
+             "3 (thorough) and sampled beyond.",
+        technique="TLA+ parser session machine model-checked with TLC; token sequences replayed as real sessions with hooks; per-call traces validated by TLC; child processes for deep nesting",
+    ),
+    "C10": dict(
+        category="model_checking",
+        text="In the session machine value and datum calls are one action (one reader); TLC-generated token sequences are run through "
+             "next_value, next_datum and the three iterator facades and must agree item for item with the machine and each other. "
+             "TLC-generated layouts, the token-kind corpus and seeded well-formed/malformed texts are parsed with both APIs from "
+             "three sources: streams must agree (same items, same failing item and error, same end), Value::from(datum) equals "
+             "datum.value(), and structural walks through the datum accessors equal the walks through the value accessors; TLC "
+             "validates sampled walks against the list model of spec/ListOps.tla.",
+        design_ref="DESIGN.md section 6 (C10)",
+        note="Trusted: TLC, harness walk functions (the same code walks both structures). Inputs bounded by the generators.",
+        technique="TLA+ session machine and list model; lock-step replay of value and datum APIs; structure walks validated by TLC",
+    ),
+    "C11": dict(
+        category="model_checking",
+        text="TLC enumerates all words of bounded length over a lexeme/trivia alphabet (multi-line, CR/LF/tab/comment trivia, a "
+             "non-ASCII atom, data adjacent to delimiters, quote shorthands, dotted tails, byte vectors), keeps those the reference "
+             "reader accepts and checks trivia insensitivity on the specification. The harness parses each with the datum API from "
+             "str, slice and io::Read and checks, for every sub-datum reachable through the iterators: span inside the input, "
+             "non-empty, contained in the parent, after its preceding sibling, covered text re-parses to the sub-datum, quote head "
+             "covers the shorthand characters, identical span trees from the three sources. TLC re-validates sampled span trees, "
+             "computing offsets with spec/Text.tla and reading the covered text with the reference reader.",
+        design_ref="DESIGN.md section 6 (C11)",
+        note="Trusted: TLC, Text!OffsetOf, the reference reader for the covered-text clause, the harness. Only sub-data reachable "
+             "through list_iter / vector_iter are covered (as the property says); as_pair internals are not.",
+        technique="TLC-generated layouts replayed through the datum API on three sources; span trees validated by TLC with the reference reader",
+    ),
+    "C12": dict(
+        category="model_checking",
+        text="Safety: TLC checks on the reference reader that the printed forms of up to 2 (quick) / 3 (thorough) values with every "
+             "choice of leading, separating and final trivia (space, tab, CR, LF, form feed, line comments, a final comment without "
+             "newline) read back as exactly those values then end of input, in both dialects; the harness builds the same streams "
+             "and reads them through the four ways of iterating over three sources. Liveness: TLC checks <>(end of input) for a "
+             "caller that keeps calling on the session machine under weak fairness (and rejects the as-found non-progress variant); "
+             "real sessions must make progress on every item and reach the end within len+3 items.",
+        design_ref="DESIGN.md section 6 (C12), section 3.7",
+        note="Trusted: TLC, reference reader/printer, Fold, the hooks. Liveness is checked on the model; on the implementation it is "
+             "the progress measure per item plus a cut-off.",
+        technique="TLA+ reference reader (safety) and session machine (liveness under fairness) model-checked with TLC; streams and call histories replayed; traces validated by TLC",
+    ),
     "C07": dict(
         category="fault_enumeration",
         text="The sink machine of spec/Sink.tla (write_all discipline against a sink that may accept any prefix, return 0, fail or "
